@@ -1,1 +1,4 @@
-let () = Glue.run_file Grammarrun.eval_c01 Sys.argv.(1)
+let () = Glue.run_file (fun fn args ->
+    match fn with
+    | "fsave" | "fbios" -> Flashrun.eval fn args
+    | _ -> Grammarrun.eval_c01 fn args) Sys.argv.(1)
